@@ -509,6 +509,69 @@ MUTANTS = [
     M("q12", "sepG", DSL, "    return \", \".join(element.to_y0() for element in elements)\n",
       "    return \", \".join(element.to_y0() for element in tuple(elements)[:5])\n", ["C12"],
       "_list_to_y0 prints at most five elements: the sixth child (or range / parent) of a long comma list disappears (the old generator: <= 3 children, <= 2 parents)", run=["C12"]),
+    # ---------- C14 (receivers with counterfactual nodes, aliasing of returned graphs, duplicates, foreign interventions, deep chains) and C16 (tag values, foreign latents, colliding prefix)
+    # =============================================================== C14: aliasing, counterfactual nodes, duplicates, foreign interventions
+    M("r01", "sepG", GR, "            directed=self.directed.copy(),\n            undirected=self.undirected.copy(),\n",
+      "            directed=self.directed.copy(),\n            undirected=self.undirected,\n", ["C14"],
+      "aliasing: copy() shares the bidirected component with the receiver (nothing is modified during the call)", run=["C14"]),
+    M("r02", "sepG", GR, "        rv = NxMixedGraph(directed=self.directed.copy(), undirected=self.undirected.copy())\n",
+      "        rv = NxMixedGraph(directed=self.directed, undirected=self.undirected.copy())\n", ["C14"],
+      "aliasing: moralize() shares the DIRECTED component (the moral links only touch the copy of the bidirected part, so the receiver "
+      "is unchanged by the call itself)", run=["C14"]),
+    M("r03", "sepG", GR, "        return self.from_edges(\n            nodes=self.nodes(),\n            directed=_exclude_source(self.directed, vertices),\n            undirected=self.undirected.edges(),\n        )\n",
+      "        rv = self.from_edges(\n            nodes=self.nodes(),\n            directed=_exclude_source(self.directed, vertices),\n            undirected=[],\n        )\n        rv.undirected = self.undirected\n        return rv\n", ["C14"],
+      "aliasing: remove_out_edges hands the receiver's bidirected graph object to the result ('it is unchanged anyway')", run=["C14"]),
+    M("r04", "sepG", GR, "        n = Variable.norm(n)\n        self.directed.add_node(n)\n",
+      "        n = Variable.norm(n).get_base()\n        self.directed.add_node(n)\n", ["C14"],
+      "add_node normalises a counterfactual node to its base variable: edge-less counterfactual nodes of every rebuilt graph turn into plain ones", run=["C14"]),
+    M("r05", "sepG", GR, "        self.directed.add_edge(u, v, **attr)\n",
+      "        u, v = u.get_base(), v.get_base()\n        self.directed.add_edge(u, v, **attr)\n", ["C14"],
+      "add_directed_edge normalises counterfactual endpoints to their base variables (two worlds of one variable are merged)", run=["C14"]),
+    M("r06", "sepG", GR, "    rv = {vertices} if isinstance(vertices, Variable) else set(vertices)\n",
+      "    rv = {vertices} if isinstance(vertices, Variable) else set(vertices)\n    if isinstance(vertices, list | tuple) and len(vertices) != len(rv):\n        raise ValueError(\"duplicate vertices\")\n", ["C14"],
+      "defensive check that rejects a node collection naming an element twice (the parameter is Iterable[Variable])", run=["C14"]),
+    M("r07", "sepG", GR, "        for node in nodes:\n            parents_of_district |= set(self.directed.predecessors(node))\n",
+      "        seen: set[Variable] = set()\n        for node in nodes:\n            if node in seen:\n                break\n            seen.add(node)\n            parents_of_district |= set(self.directed.predecessors(node))\n", ["C14"],
+      "get_markov_pillow stops at the first repeated node of the collection", run=["C14"]),
+    M("r08", "sepG", GR, "        return self.from_edges(\n            nodes=[node.intervene(variables) for node in self.nodes()],\n",
+      "        variables = {v for v in variables if Variable(v.name) in self.directed}\n        return self.from_edges(\n            nodes=[node.intervene(variables) for node in self.nodes()],\n", ["C14"],
+      "intervene drops interventions on variables that are not nodes of the graph (subscripts lost; ValueError when none is left)", run=["C14"]),
+    M("r09", "sepG", GR, "    return (+node not in interventions) and (-node not in interventions)\n",
+      "    if any(i.name == node.name for i in interventions) and len({i.name for i in interventions}) != len(interventions):\n        return True\n    return (+node not in interventions) and (-node not in interventions)\n", ["C14"],
+      "intervene with +X and -X of one variable keeps the edges into X (X is intervened whatever the sign: 'edges into the intervened nodes removed')", run=["C14"]),
+    M("r10", "sepG", GR, "    if any(isinstance(v, Intervention) for v in rv):\n",
+      "    if any(isinstance(v, Intervention | CounterfactualVariable) for v in rv):\n", ["C14"],
+      "_ensure_set rejects counterfactual variables as well: subgraph / ancestors_inclusive ... of a counterfactual graph (what id_star does) raise", run=["C14"]),
+    M("r11", "sepG", GR, "            undirected=_include_adjacent(self.undirected, vertices),\n",
+      "            undirected=[(u, v) for u, v in _include_adjacent(self.undirected, vertices) if u != v],\n", ["C14"],
+      "subgraph loses bidirected self-loops", run=["C14"]),
+    M("r12", "sepG", GR, "        itt.chain.from_iterable(nx.algorithms.dag.ancestors(graph, source) for source in sources)\n",
+      "        itt.chain.from_iterable(\n            nx.single_source_shortest_path_length(graph.reverse(copy=False), source, cutoff=5)\n            for source in sources\n        )\n", ["C14"],
+      "ancestors_inclusive by a bounded search: ancestors more than 5 edges away are lost", run=["C14"]),
+    # =============================================================== C16: tag values, foreign latents, colliding prefix, mixed names
+    M("t01", "sepG", LAT, "        if graph.nodes[node][tag]:\n", "        if graph.nodes[node][tag] is True:\n", ["C16"],
+      "iter_latents recognises a latent only by the bool True: nodes tagged 1 / numpy.True_ are treated as observed by every rule", run=["C16"]),
+    M("t02", "sepG", GR, "            if not data[tag]:\n", "            if data[tag] is False:\n", ["C16"],
+      "from_latent_variable_dag adds an edge-less observed node only when its tag is the bool False (0 / None / numpy.False_ are lost)", run=["C16"]),
+    M("t03", "sepG", GR, "            if data[tag]:\n                for a, b in itt.combinations", "            if data[tag] is True:\n                for a, b in itt.combinations", ["C16"],
+      "from_latent_variable_dag treats a latent tagged 1 / numpy.True_ as observed: directed edges out of a node that is not in the graph", run=["C16"]),
+    M("t04", "sepG", LAT, "        for node, data in lv_dag.nodes(data=True):\n            if node in latents:\n                data[tag] = True\n",
+      "        for node in latents:\n            lv_dag.nodes[node][tag] = True\n", ["C16"],
+      "evans_simplify marks the named latents by lookup: KeyError for a name that is not a node (the documented behaviour is to ignore it)", run=["C16"]),
+    M("t05", "sepG", LAT, "        for node, data in lv_dag.nodes(data=True):\n            if node in latents:\n                data[tag] = True\n",
+      "        for node in latents:\n            lv_dag.add_node(node, **{tag: True})\n", "equivalent",
+      "evans_simplify ADDS a latent for every named variable that is not a node: a childless latent, removed again by rule 2", run=["C16"]),
+    M("t06", "sepG", GR, "        latent_node = next(name for name in latent_names if name not in rv)\n",
+      "        latent_node = next(name for name in latent_names if name not in rv or prefix != DEFULT_PREFIX)\n", ["C16"],
+      "the skip-taken-names loop only works for the default prefix: with a custom prefix / start that runs into node names an observed node is overwritten by a latent", run=["C16"]),
+    M("t07", "sepG", GR, "    if prefix is None:\n        prefix = DEFULT_PREFIX\n", "    if not prefix:\n        prefix = DEFULT_PREFIX\n", "outside-property",
+      "the empty prefix is replaced by the default one: only the NAMES of the generated latents change (round trip still exact); seen by the correspondence alone", run=["C16"]),
+    M("t08", "sepG", LAT, "        if left_children == right_children and left > right:\n",
+      "        if left_children == right_children and (len(left.name), left.name) > (len(right.name), right.name):\n", "outside-property",
+      "rule 4 keeps the shorter name instead of the lower sort order: another representative of equal latents; identical on names of one length (A00..A15), differs on the mixed-name stream only; correspondence alone", run=["C16"]),
+    M("t09", "sepG", GR, "    latent_names = (Variable(f\"{prefix}{i}\") for i in itt.count(start))\n",
+      "    latent_names = (Variable(f\"{prefix}{i}\") for i in itt.count(max(start, 0)))\n", "outside-property",
+      "a negative start is clamped to 0: names of generated latents only; correspondence alone", run=["C16"]),
 ]
 
 
